@@ -316,5 +316,35 @@ fn generate(full: bool) -> String {
         let prelude2 = format!("#[derive(SystemData)]\n#[allow(dead_code)]\npub struct {n2}<'a>(({n}<'a, 'static, R<0>>, {c}), ());\n", n2 = name2, n = name, c = s2);
         g.case("derive-nested", &format!("{}<'a>", name2), &e2, 3, &prelude2);
     }
+    // (iv-b) derived structs that are generic over one of their members: the member's type is a bare
+    // type parameter (it never mentions the fetch lifetime textually), bound in the generics, in a
+    // where-clause, or in a tuple struct
+    let member_kinds: Vec<K> = if full { ALL.to_vec() } else { vec![K::Write, K::OptRead, K::Read] };
+    for (form, decl) in [
+        (0, "pub struct {N}<'a, D: shred::SystemData<'a>> {{\n    pub inner: D,\n    pub own: Read<'a, R<0>>,\n}}\n"),
+        (1, "pub struct {N}<'a, D> where D: shred::SystemData<'a> {{\n    pub own: Write<'a, R<0>>,\n    pub inner: D,\n}}\n"),
+        (2, "pub struct {N}<'a, D: shred::SystemData<'a>>(pub D, pub Read<'a, R<0>>);\n"),
+        (3, "pub struct {N}<'a, D: shred::SystemData<'a>, E: shred::SystemData<'a>> {{\n    pub first: D,\n    pub own: Read<'a, R<0>>,\n    pub second: E,\n}}\n"),
+    ] {
+        for k in &member_kinds {
+            let name = format!("S{}", sid);
+            sid += 1;
+            let mut e = Exp::default();
+            // the struct's own member on resource 0
+            let own_kind = if form == 1 { K::Write } else { K::Read };
+            let mut own = String::new();
+            ty(&T::Leaf(own_kind, 0), &mut own, &mut e);
+            // the generic member: a tuple (kind on resource 1, Read on resource 2)
+            let mut member = String::new();
+            ty(&T::Tup(vec![T::Leaf(*k, 1), T::Leaf(K::Read, 2)]), &mut member, &mut e);
+            let mut second = String::new();
+            if form == 3 {
+                ty(&T::Leaf(K::Write, 3), &mut second, &mut e);
+            }
+            let prelude = format!("#[derive(SystemData)]\n#[allow(dead_code)]\n{}", decl.replace("{N}", &name).replace("{{", "{").replace("}}", "}"));
+            let inst = if form == 3 { format!("{}<'a, {}, {}>", name, member, second) } else { format!("{}<'a, {}>", name, member) };
+            g.case("derive-generic-member", &inst, &e, 4, &prelude);
+        }
+    }
     format!("{}\npub static CASES: &[Case] = &[\n{}];\n", g.code, g.table)
 }
